@@ -98,6 +98,13 @@ fn client_emit(world: &mut World) {
                     world.client_trigger_targets(CTrig(seq), ce);
                     refent = sref;
                 }
+                None if sref.is_some() => {
+                    // the game targets a local entity the server has never heard of (e.g. its copy of an entity that is not
+                    // replicated to it yet): "entity references are translated ... or the event is not sent"
+                    let tmp = world.spawn_empty().id();
+                    world.client_trigger_targets(CTrig(seq), tmp);
+                    expect = false;
+                }
                 None => {
                     world.client_trigger(CTrig(seq));
                 }
